@@ -58,6 +58,38 @@ func tableCheck(rec *ev.Rec) {
 	}
 }
 
+// constantsCheck: curve constants and the odd multiples of the base point
+// used by the double-base multiplication, against the model.
+func constantsCheck(rec *ev.Rec) {
+	bad := func(what string) {
+		rec.Violate("group/constants", what, "group/constants", map[string]interface{}{"op": "layer", "layer": "group", "fn": "table"})
+	}
+	d, d2, sm1 := ge25519.VerifConstants()
+	modp := func(x *big.Int) *big.Int { return new(big.Int).Mod(x, ref.P) }
+	rec.Eval("constants")
+	if modp(mon.FVal(&d)).Cmp(ref.D) != 0 {
+		bad("curve constant d differs from -121665/121666")
+	}
+	if modp(mon.FVal(&d2)).Cmp(modp(new(big.Int).Lsh(ref.D, 1))) != 0 {
+		bad("curve constant 2d differs from the model")
+	}
+	sq := modp(new(big.Int).Mul(mon.FVal(&sm1), mon.FVal(&sm1)))
+	if sq.Cmp(new(big.Int).Sub(ref.P, one)) != 0 {
+		bad("sqrt(-1) constant does not square to -1")
+	}
+	for i := 0; i < 32; i++ {
+		ys, xa, t2 := ge25519.VerifSlidingMultiple(i)
+		pt := ref.ScalarMult(big.NewInt(int64(2*i+1)), ref.B)
+		wy := modp(new(big.Int).Sub(pt.Y, pt.X))
+		wx := modp(new(big.Int).Add(pt.Y, pt.X))
+		wt := modp(new(big.Int).Mul(new(big.Int).Lsh(ref.D, 1), new(big.Int).Mul(pt.X, pt.Y)))
+		rec.Eval("sliding-multiple")
+		if modp(mon.FVal(&ys)).Cmp(wy) != 0 || modp(mon.FVal(&xa)).Cmp(wx) != 0 || modp(mon.FVal(&t2)).Cmp(wt) != 0 {
+			bad(fmt.Sprintf("precomputed multiple [%d]B of the double-base table is not (y-x, y+x, 2dxy)", 2*i+1))
+		}
+	}
+}
+
 func moveCondWorkload(rng *rand.Rand, rec *ev.Rec, n int) {
 	for i := 0; i < n; i++ {
 		var out, in [96]byte
@@ -161,6 +193,7 @@ func runC16(cfg *Cfg, rec *ev.Rec) {
 	if cfg.Shard == 0 {
 		selectorExhaustive(rec)
 		tableCheck(rec)
+		constantsCheck(rec)
 	}
 	if cfg.Shard == 1%cfg.NShards {
 		selectorExhaustive(rec)
